@@ -634,7 +634,12 @@ func (c *Conn) send(ctx context.Context, f func(context.Context) error) error {
 		if err := c.state.WaitUntilOrClosed(ctx, connStatusConnected); err != nil {
 			return err
 		}
-		generation := c.state.Reconnects()
+		// the generation must be read while the status is Connected: read during a reconnect it would
+		// already name the coming connection and a failure on the old one would look current
+		generation, connected := c.state.ConnectedGeneration()
+		if !connected {
+			continue
+		}
 		if err := f(ctx); err != nil {
 			if !errors.Is(err, errors.ErrConnectionClosed) {
 				return err
